@@ -100,7 +100,7 @@ class TablePolicy(object):
 
     trigger: 'name' (every occurrence), 'name#k' (k-th occurrence, 0-based),
              '@i' (event index i), '*' (every event)
-    action:  [method, arg...]   e.g. ['send_text', 'x'] ['close', 1000, 'bye'] ['close']
+    action:  [method, arg...]   e.g. ['send_text', 'x'] ['close', 1000, 'bye'] ['close'];  ['sleep', seconds]
     """
 
     def __init__(self, table):
@@ -112,6 +112,10 @@ class TablePolicy(object):
         self.seen[ev.name] = k + 1
         for trig in (ev.name, '%s#%d' % (ev.name, k), '@%d' % idx, '*'):
             for act in self.table.get(trig, ()):
+                if act[0] == 'sleep':
+                    # the application spends (virtual) time in its handler
+                    run.world.now += float(act[1])
+                    continue
                 app_call(run, ws, act[0], *act[1:])
 
 
